@@ -6,7 +6,9 @@ from props.metrics_common import MetricsDriver, gen_trace, trace_kw
 
 SPEC = "Metrics"
 MANIFEST = dict(
-    text="Metrics.tla models the dynamically created scope forest (registration at creation under the creating task's "
+    text="(Also: scope objects MADE in one place - registered there - and entered later by a task that inherited nothing "
+         "from the maker, with a forced garbage collection in between: Make / EnterMade.) "
+         "Metrics.tla models the dynamically created scope forest (registration at creation under the creating task's "
          "current scope unless it already completed), finishing, the upward completion closure and the separately "
          "scheduled completion callbacks, with children in the parent's task, in tasks spawned into the scope and in "
          "plain tasks that outlive it. TLC checks CbAtMostOnce, CbAfterSubtree, CbSeesCompleted, ExitNeverFails, "
